@@ -15,6 +15,10 @@ for f in sorted(glob.glob('/verif/seeded/*/meta.json')):
             how.append('%s: VIOLATION, %s%s' % (k, kind, (' — ' + det) if det and 'no-failing' not in kind else ''))
         else:
             how.append('%s: not reported' % k)
+    if m.get('obsolete'):
+        how = ['OBSOLETE: ' + m['obsolete']]
+    if m.get('before_strengthening'):
+        how.append('first pass (before the check was strengthened): not reported')
     rows.append((sid, m.get('property'), m.get('summary', '')[:260].replace('\n', ' ').replace('|', '/'),
                  str(m.get('needs', ''))[:220].replace('\n', ' ').replace('|', '/'), '; '.join(how), m.get('detected')))
 out = ['# Seeded changes: which check reports which\n',
@@ -24,7 +28,10 @@ out = ['# Seeded changes: which check reports which\n',
        '| seed | property | change | needs | result |', '|---|---|---|---|---|']
 for r in rows:
     out.append('| %s | %s | %s | %s | %s |' % r[:5])
-n = len(rows); d = sum(1 for r in rows if r[5])
-out.append('\n%d of %d seeded changes are reported by the check of the property they break.\n' % (d, n))
+n = len(rows); d = sum(1 for r in rows if r[5]); o = sum(1 for r in rows if 'OBSOLETE' in r[4])
+first_miss = sum(1 for r in rows if 'first pass' in r[4])
+out.append('\n%d seeded changes (round 1: ids _1/_2, round 2: ids _3/_4); %d were not reported on the first pass and led to a '
+           'strengthened check; now %d are reported by the check of the property they break, %d became obsolete when the defect they relied '
+           'on was repaired.\n' % (n, first_miss, d, o))
 open('/verif/seeded/RESULTS.md', 'w').write('\n'.join(out) + '\n')
 print(d, 'of', n)
